@@ -22,16 +22,20 @@ from harness import core, shell_common as sc
 
 LEVEL = "model_checking"
 PROP = "C24"
-NSH = 25
 
 
-def sanity_vs_sh(ctx, recs):
-    """PosixWords!Split against /bin/sh on the alphabet (validates the spec)."""
+def select_for_sh(ctx, recs):
+    """Strings whose outcome /bin/sh can confirm (literal or unterminated)."""
     judged = [r for r in recs if r["status"] in ("ok", "unterminated")]
     if not ctx.thorough and len(judged) > 260:      # quick: every string up to length 2 and a seeded sample
         short = [r for r in judged if len(r["s"]) <= 2]
         longer = [r for r in judged if len(r["s"]) > 2]
         judged = short + ctx.rng.sample(longer, 260 - len(short))
+    return judged
+
+
+def sanity_vs_sh(ctx, recs, judged):
+    """PosixWords!Split against /bin/sh on the alphabet (validates the spec, not pydra)."""
     work = tempfile.mkdtemp(prefix="shsanity_", dir=str(ctx.scratch))
     chunks = [judged[i:i + 200] for i in range(0, len(judged), 200)]
 
@@ -73,11 +77,10 @@ def run(ctx):
     if ctx.thorough:
         jobs = [("chars", 8, {"minl": 1, "maxl": 3}),
                 ("sample", 4, {"seed": ctx.seed, "nsamples": 5000, "chars": True})]
-        n_exec = 1500
+        n_exec = 1000
     else:
         jobs = [("chars", 1, {"minl": 1, "maxl": 2}),
-                ("chars", NSH, {"minl": 3, "maxl": 3}, [ctx.seed % NSH]),
-                ("sample", 1, {"seed": ctx.seed, "nsamples": 400, "chars": True})]
+                ("sample", 1, {"seed": ctx.seed, "nsamples": 500, "chars": True})]
         n_exec = 120
     with ThreadPoolExecutor(max_workers=3) as ex:
         futs = [ex.submit(sc.posix_strings, ctx, 3)]            # every string up to length 3
@@ -86,11 +89,12 @@ def run(ctx):
         cases = sc.generate_many(ctx, jobs, max_procs=8 if ctx.thorough else 3)
         strings = [r for f in futs for r in f.result()]
     t1 = time.time()
-    sanity_vs_sh(ctx, strings)
+    pool = ThreadPoolExecutor(max_workers=1)       # the /bin/sh cross-check runs beside the replay
+    sanity = pool.submit(sanity_vs_sh, ctx, strings, select_for_sh(ctx, strings))
     t2 = time.time()
     ctx.exhaustive = True
     ctx.rule = ("pairs (cmdline, argv) recorded from every ShellArgv_Gen case that yields a command: mode chars "
-                "(alphabet strings of length 1..3 x 10 placements; quick: 1..2 plus a seeded 1/25 shard of length 3) "
+                "(alphabet strings of length 1..3 x 10 placements; quick: length 1..2) "
                 "and seeded 2..4-field definitions with alphabet strings; validated by TLC (PosixWords_Gen); "
                 "distinct = initial states of both generators; non-trivial = some argument contains a character "
                 "other than letters, digits, '-', '=', '/', '_', '.', ','")
@@ -99,7 +103,12 @@ def run(ctx):
                "backslash) are recorded, not judged")
 
     exec_set = set(ctx.rng.sample(range(len(cases)), min(n_exec, len(cases))))
-    obs = sc.observe_all(cases, exec_set)
+    # in-process observations first (no fork while the cross-check thread spawns shells) ...
+    obs = sc.observe_all([c for c in cases if c["k"] not in exec_set], ())
+    sanity.result()                                 # raises MachineryError if the spec and /bin/sh disagree
+    pool.shutdown()
+    # ... then the executions through the fork pool
+    obs.update(sc.observe_all([c for c in cases if c["k"] in exec_set], exec_set))
     t3 = time.time()
     pairs, bykey = [], {c["k"]: c for c in cases}
     for case in cases:
@@ -125,8 +134,7 @@ def run(ctx):
     verdicts = sc.posix_validate(ctx, pairs + [{k: s[k] for k in ("k", "cl", "av")} for s in SENTINELS],
                                  nshards=6 if ctx.thorough else 2)
     t4 = time.time()
-    ctx.extra["phase_s"] = {"tlc_gen+strings": round(t1 - t0, 1), "sh_sanity": round(t2 - t1, 1),
-                            "replay": round(t3 - t2, 1), "tlc_validate": round(t4 - t3, 1)}
+    ctx.extra["phase_s"] = {"tlc_gen+strings": round(t1 - t0, 1), "replay+sh_sanity": round(t3 - t1, 1), "tlc_validate": round(t4 - t3, 1)}
     for s in SENTINELS:   # binding self-test: TLC must tell faithful from unfaithful
         if verdicts[s["k"]]["faithful"] != s["faithful"]:
             raise core.MachineryError(f"binding self-test: sentinel {s} judged {verdicts[s['k']]}")
